@@ -647,6 +647,9 @@ class Interp:
             return z3.BoolVal(False)
         if isinstance(a, VClass) and isinstance(b, VClass):
             return z3.BoolVal(a.ci.qname == b.ci.qname)
+        if isinstance(a, VGen) and isinstance(b, VGen) and a.kind == "dictkeys" and b.kind == "dictkeys" and a.d.ty.k == b.d.ty.k:
+            # key views compare as sets: equal domains (arrays are extensional)
+            return a.d.ty.dom(a.d.term) == b.d.ty.dom(b.d.term)
         if not (isinstance(a, SV) and isinstance(b, SV)):
             raise Unsupported(f"== between {a} and {b}")
         ta, tb = a.ty, b.ty
